@@ -12,6 +12,7 @@ import (
 	"os"
 	"path/filepath"
 	"strconv"
+	"sync"
 	"sync/atomic"
 
 	"github.com/deadsy/sdfx/render"
@@ -26,6 +27,8 @@ import (
 )
 
 var work = filepath.Join(vlib.VerifDir, ".work", "c15")
+
+var dxfMu sync.Mutex
 
 type scripted3 struct{ ts []*sdf.Triangle3 }
 
@@ -211,8 +214,12 @@ func main() {
 		// DXF
 		dp := filepath.Join(work, fmt.Sprintf("d.%d.dxf", i))
 		defer os.Remove(dp)
+		// the dxf package keeps process-global default objects: writing and reading are serialised by the
+		// harness (concurrent DXF renders are C09's subject, not this check's)
+		dxfMu.Lock()
 		if batch {
 			if err := render.SaveDXF(dp, ls); err != nil {
+				dxfMu.Unlock()
 				c.Violation("dxf|SaveDXF-error", err.Error(), desc)
 				return
 			}
@@ -220,6 +227,7 @@ func main() {
 			render.ToDXF(dummy2{}, dp, scripted2{ls})
 		}
 		d, err := dxf.FromFile(dp)
+		dxfMu.Unlock()
 		if err != nil {
 			c.Violation("dxf|unreadable", fmt.Sprintf("DXF written for %d segments cannot be read: %v", len(ls), err), desc)
 			return
